@@ -137,6 +137,29 @@ func edIsIdentityEncoding(x []byte) bool {
 	return id
 }
 
+// the point of order two, (0, -1): canonical encoding y = p - 1, and the same with the sign bit
+// set (x = 0 has no sign), which decoders that do not insist on canonical encodings accept too
+func edT2Enc(signBit bool) []byte {
+	b := make([]byte, 32)
+	for i := range b {
+		b[i] = 0xff
+	}
+	b[0] = 0xec
+	if !signBit {
+		b[31] = 0x7f
+	}
+	return b
+}
+
+func edIsT2(p *edPoint) bool { return p.nf == 0 && !p.neg && vSameTerm(p.base, edT2Enc(false)) }
+
+func edIsT2Encoding(x []byte) bool {
+	if vSameTerm(x, edT2Enc(false)) || vSameTerm(x, edT2Enc(true)) {
+		return true
+	}
+	return vBytesEq(x, edT2Enc(false)) || vBytesEq(x, edT2Enc(true))
+}
+
 func edIsIdentity(p *edPoint) bool {
 	return p.nf == 0 && vSameTerm(p.base, edIdentityEnc())
 }
@@ -219,6 +242,10 @@ func EdPointSetBytes(v interface{}, x []byte) (interface{}, error) {
 		edSet(v, &edPoint{base: edIdentityEnc()})
 		return v, nil
 	}
+	if edIsT2Encoding(x) {
+		edSet(v, &edPoint{base: edT2Enc(false)})
+		return v, nil
+	}
 	for i := range edReg {
 		if vBytesEq(edReg[i].enc, x) {
 			edSet(v, edReg[i].pt)
@@ -245,6 +272,13 @@ func edNegOf(q *edPoint) *edPoint {
 
 func edMul(p *edPoint, f []byte) *edPoint {
 	if edIsIdentity(p) {
+		return &edPoint{base: edIdentityEnc()}
+	}
+	if edIsT2(p) {
+		// [f]T2 = T2 for odd f, O for even f
+		if f[0]&1 == 1 {
+			return &edPoint{base: edT2Enc(false)}
+		}
 		return &edPoint{base: edIdentityEnc()}
 	}
 	if p.neg {
@@ -293,6 +327,10 @@ func EdPointNegate(v interface{}, p interface{}) interface{} {
 		edSet(v, &edPoint{base: edIdentityEnc()})
 		return v
 	}
+	if edIsT2(q) {
+		edSet(v, &edPoint{base: edT2Enc(false)}) // -T2 = T2
+		return v
+	}
 	edSet(v, edNegOf(q))
 	return v
 }
@@ -337,6 +375,11 @@ func EdPointVarTimeDoubleScalarBaseMult(v interface{}, a interface{}, A interfac
 	// [a]O + [0]B = O
 	if edIsIdentity(pA) && vBytesEq(sb, make([]byte, 32)) {
 		edSet(v, &edPoint{base: edIdentityEnc()})
+		return v
+	}
+	// [a]T2 + [0]B = T2 or O by the parity of a
+	if edIsT2(pA) && vBytesEq(sb, make([]byte, 32)) {
+		edSet(v, edMul(pA, ka))
 		return v
 	}
 	// [k](-[x]B) + [k x + r]B = [r]B
